@@ -44,12 +44,20 @@ def check_reader(rep, facts, cg, pv):
         kws = {kw.arg: kw.value for kw in c.keywords}
         inc = kws.get('include')
         dirs = kws.get('include_dirs')
-        ok = k == 'Resolved' and isinstance(inc, ast.Constant) and inc.value is True and dirs is not None and unparse(dirs) == 'include_dirs'
+        # the search list handed down must be the caller's own include_dirs, untouched: a list that already holds this file's
+        # directory would make nested files search their ancestors' directories
+        dirs_param = next((a.arg for a in fn.args.args + fn.args.kwonlyargs if a.arg == 'include_dirs'), None)
+        rebound = [n for n in ast.walk(fn) if isinstance(n, ast.Name) and n.id == dirs_param and isinstance(n.ctx, ast.Store)]
+        mutated = [n for n in ast.walk(fn) if isinstance(n, ast.Call) and isinstance(n.func, ast.Attribute) and isinstance(n.func.value, ast.Name)
+                   and n.func.value.id == dirs_param and n.func.attr in ('append', 'extend', 'insert', 'remove', 'pop', 'clear', 'sort', 'reverse')]
+        mutated += [n for n in ast.walk(fn) if isinstance(n, ast.AugAssign) and isinstance(n.target, ast.Name) and n.target.id == dirs_param]
+        untouched = dirs is not None and isinstance(dirs, ast.Name) and dirs.id == dirs_param and not rebound and not mutated
+        ok = k == 'Resolved' and isinstance(inc, ast.Constant) and inc.value is True and untouched
         rep.check(ok, 'R14.2.recursion', 'included file is read by its resolved path, include=True, same include_dirs',
                   lambda c=c, k=k: Finding('R14.2.recursion', 'read_lines', c,
                                            'the recursive read passes a {} path / does not pass include=True / changes include_dirs: nested includes are not resolved like top-level ones'.format(k), line=c.lineno))
     # adjacent directory derived from the including file's path
-    dirs_built = [n for n in ast.walk(fn) if isinstance(n, ast.Call) and isinstance(n.func, ast.Attribute) and n.func.attr == 'append'
+    dirs_built = [n for n in ast.walk(fn) if isinstance(n, ast.Call) and isinstance(n.func, ast.Attribute) and n.func.attr in ('append', 'add', 'insert')
                   and isinstance(n.func.value, ast.Name) and 'dirs' in n.func.value.id]
     good = False
     for n in dirs_built:
@@ -63,7 +71,7 @@ def check_reader(rep, facts, cg, pv):
               lambda: Finding('R14.2.adjacent', 'read_lines', fn, 'the search path does not contain the directory of the file being read', line=fn.lineno))
     # the search list starts from the caller's include_dirs (copied, never mutated in place)
     cur = [st for st in ast.walk(fn) if isinstance(st, ast.Assign) and isinstance(st.targets[0], ast.Name) and 'dirs' in st.targets[0].id]
-    copied = any('include_dirs' in unparse(st.value) and ('deepcopy' in unparse(st.value) or 'list(' in unparse(st.value) or '+' in unparse(st.value) or '[:]' in unparse(st.value)) for st in cur)
+    copied = any('include_dirs' in unparse(st.value) and ('deepcopy' in unparse(st.value) or 'list(' in unparse(st.value) or 'set(' in unparse(st.value) or 'tuple(' in unparse(st.value) or '+' in unparse(st.value) or '[:]' in unparse(st.value)) for st in cur)
     rep.check(copied, 'R14.2.dirs-copied', 'the per-file search list is a copy of include_dirs',
               lambda: Finding('R14.2.dirs-copied', 'read_lines', cur[0] if cur else fn, 'the caller\'s include_dirs list is extended in place: directories leak from one file to the next', line=fn.lineno))
     # lookup: first existing join(dir, name) in order
